@@ -323,7 +323,13 @@ class Application(ApplicationPartDelete, ApplicationPartHead,
                 if "W" in self._rights.authorization(user, principal_path):
                     with self._storage.acquire_lock("w", user):
                         try:
-                            new_coll = self._storage.create_collection(principal_path)
+                            # The lock was released after the check above:
+                            # look again, another request may have created
+                            # the principal collection meanwhile
+                            new_coll = None
+                            if not next(iter(self._storage.discover(
+                                    principal_path, depth="1")), None):
+                                new_coll = self._storage.create_collection(principal_path)
                             if new_coll:
                                 jsn_coll = self.configuration.get("storage", "predefined_collections")
                                 for (name_coll, props) in jsn_coll.items():
